@@ -63,6 +63,11 @@ def gen_cases(rng, tier):
     # the multi-fidelity surrogate with independent GPs per rung level (appended: the cases above stay the same for a seed)
     for _ in range(12 if tier == "quick" else 150):
         yield gp.gen_e2e09_indep(rng, tier)
+    # acquisition gradients next to an observed configuration of an (almost) noise-free objective: tiny posterior standard deviation
+    for _ in range(10 if tier == "quick" else 120):
+        spec = gp.gen_e2e09_acq(rng, tier)
+        spec.update({"acq": rng.choice(["lcb", "lcb", "ei"]), "near_data": True, "pending": 0, "resource_kernel": None, "override": False})
+        yield spec
 
 
 def corpus():
